@@ -212,7 +212,7 @@ type c07Ev struct {
 }
 
 func init() {
-	vh.AddPart("C07", "lib-conc", "sim", vh.Opts{Shards: 16, TimeoutS: 300, TimeoutSThorough: 3000},
+	vh.AddPart("C07", "lib-conc", "sim", vh.Opts{NoConfirm: true, Shards: 16, TimeoutS: 300, TimeoutSThorough: 3000},
 		func(e *vh.Env) []c07Conc {
 			var cs []c07Conc
 			for _, kind := range []string{"boundary", "inside", "straggler", "old-trial"} {
